@@ -18,7 +18,9 @@ Import ListNotations.
 Open Scope Z_scope.
 """
 
-KINDS = ["int", "str", "list", "dict", "spec", "meth", "clsfun", "func", "class", "module", "klist", "kset"]
+KINDS = ["int", "str", "list", "dict", "spec", "meth", "clsfun", "func", "class", "module", "klist", "kset", "opt"]
+ANN = {"int": "int", "str": "str", "list": "list", "dict": "dict", "spec": "Inner", "opt": "Optional[int]",
+       "klist": "KeyedList[Keyed, str]", "kset": "KeyedSet[Keyed, str]"}      # every other kind: Any
 CLS_ID = {"Inner": 0, "Base": 1, "Sub": 2, "Plain": 3, "Keyed": 4, "Frozen": 5, "Shared": 6}
 LONG = "ab" * 60
 
@@ -47,8 +49,7 @@ def decl(a):
     n, k = a["name"], a["kind"]
     if k == "clsfun":
         return [f"    {n}: Any", f"    def {n}(self): return {attr_id(n)}"]
-    ann = {"int": "int", "str": "str", "list": "list", "dict": "dict", "spec": "Inner",
-           "klist": "KeyedList[Keyed, str]", "kset": "KeyedSet[Keyed, str]"}.get(k, "Any")
+    ann = ANN.get(k, "Any")
     args = []
     if a.get("default"):
         d = {"int": "default=1", "str": "default='a'", "list": "default_factory=list",
@@ -92,7 +93,7 @@ def redefault_decl(fam, rd):
     a = next(x for x in fam["attrs"] if x["name"] == rd["name"])
     k, n = a["kind"], rd["name"]
     v = REDEFAULT_VALUE.get(k, "0")
-    ann = {"int": "int", "str": "str", "list": "list", "dict": "dict", "spec": "Inner"}.get(k, "Any")
+    ann = ANN.get(k, "Any")
     if rd["form"] == "plain":
         return f"    {n} = {v}"
     if rd["form"] == "annot":
@@ -104,7 +105,8 @@ def redefault_decl(fam, rd):
 
 
 def family_source(fam):
-    src = ["import dataclasses", "from typing import Any", "from spec_classes import spec_class, Attr",
+    src = ["import dataclasses", "from typing import Any, Optional", "from spec_classes import spec_class, Attr",
+           "from spec_classes.types.missing import SENTINEL",
            "from spec_classes.types import KeyedList, KeyedSet",
            "import types as M0, json as M1",
            "def F0(): pass", "def F1(): pass", "class K0: pass", "class K1: pass",
@@ -143,6 +145,7 @@ class Family:
                       id(self.ns["K1"]): 201, id(self.ns["M0"]): 300, id(self.ns["M1"]): 301}
         for n, c in self.classes.items():      # spec class OBJECTS as values: identity-compared atoms
             self.atoms[id(c)] = 400 + CLS_ID[n]
+        self.atoms[id(self.ns["SENTINEL"])] = 500  # the library's generic sentinel stored as a VALUE
         from spec_classes import MISSING
         self.MISSING = MISSING
 
@@ -174,6 +177,8 @@ class Family:
             return self.ns[f"K{r[1]}"]
         if t == "module":
             return self.ns[f"M{r[1]}"]
+        if t == "sentinel":
+            return self.ns["SENTINEL"]
         if t == "speccls":                       # the class object itself, not an instance
             return self.classes[r[1]]
         if t == "meth":
@@ -823,6 +828,8 @@ def values_for(kind, rng):
               [A1, {"k": ["str", "b"], "b0": ["int", 2], "drop_k": True}],   # key deleted after insertion
               [{"k": ["str", "a"]}, B2]]                           # b0 left at its default
         return [[kind, v] for v in vs]
+    if kind == "opt":                     # Optional[int]: None is an ordinary value
+        return [["int", 1], ["int", 2], ["none"], ["int", 0], ["bool", False]]
     if kind == "spec":
         return [["inner", {"p": ["int", 1]}], ["inner", {"p": ["int", 2]}], ["inner", {"p": ["int", 1], "q": ["str", "a"]}],
                 ["inner", {}]]
@@ -840,6 +847,32 @@ def values_for(kind, rng):
         return [["module", 0], ["module", 1], ["none"], ["speccls", "Keyed"], ["keyed", {"k": ["unset"], "b0": ["int", 1]}],
                 ["keyed", {"k": ["int", 1], "b0": ["int", 1]}]]
     raise AssertionError(kind)
+
+
+ANY_BLANKS = [["none"], ["int", 0], ["bool", False], ["str", ""], ["list", []], ["dict", []], ["tuple", []], ["sentinel"]]
+
+
+def blanks_for(kind):
+    """the values of one kind that a lookup with the WRONG fallback would take for "not assigned":
+    None, the falsy values the annotation admits, and (for Any) the library's generic sentinel stored
+    as a value.  An attribute holding one of these is NOT missing."""
+    if kind == "int":
+        return [["int", 0], ["bool", False]]
+    if kind == "str":
+        return [["str", ""]]
+    if kind == "list":
+        return [["list", []]]
+    if kind == "dict":
+        return [["dict", []]]
+    if kind == "spec":
+        return [["inner", {}]]
+    if kind in ("klist", "kset"):
+        return [[kind, []]]
+    if kind == "opt":
+        return [["none"], ["int", 0], ["bool", False]]
+    if kind == "clsfun":
+        return []
+    return ANY_BLANKS                     # meth / func / class / module are annotated Any
 
 
 def gen_family(rng, kinds=None, flags=None):
@@ -865,6 +898,9 @@ def gen_family(rng, kinds=None, flags=None):
                 "default": True, "init": True}]
         if rng.random() < 0.5:
             sub[0]["via"] = "field"
+        if rng.random() < 0.4:             # Sub's own attribute may be unassigned too (Optional / Any / typed)
+            sub[0]["default"] = False
+            sub[0]["kind"] = rng.choice(["opt", "func", "int", "str", "list"])
     rds = []
     cand = [a for a in attrs if a["kind"] not in ("clsfun", "klist", "kset")]
     if kinds is None and cand and rng.random() < 0.7:
@@ -895,13 +931,19 @@ def gen_state(rng, fam, cname):
             st[a["name"]] = ["missing"] if rng.random() < 0.5 else ["deleted", vals[0]]
         elif a.get("default") and r < 0.2:
             st[a["name"]] = ["default"]
+        elif r > 0.9 and blanks_for(a["kind"]):
+            st[a["name"]] = rng.choice([b for b in blanks_for(a["kind"]) if b[0] != "sentinel"])
         else:
             st[a["name"]] = rng.choice(vals[:3]) if rng.random() < 0.7 else rng.choice(vals)
     return {"cls": cname, "attrs": st}
 
 
-def one_diff_pairs(fam, cname="Base"):
-    """for each attribute position: the base state and a state that differs only there"""
+def one_diff_pairs(fam, cname="Base", blank_alts=True, full=True):
+    """for each attribute position: the base state and a state that differs only there (another
+    value; not assigned), and -- "missing equals only missing" -- a state where the attribute is not
+    assigned (never set / set and deleted) against one where it holds None / a falsy value / a
+    sentinel (`blanks_for`).  blank_alts: also base value vs blank value; full=False: the
+    set-and-deleted variant only for the first blank."""
     alist = attrs_of(fam, cname)
     base = {}
     for a in alist:
@@ -916,6 +958,20 @@ def one_diff_pairs(fam, cname="Base"):
             st = dict(base)
             st[a["name"]] = alt
             out.append(({"cls": cname, "attrs": dict(base)}, {"cls": cname, "attrs": st}, a["name"]))
+        for bi, blank in enumerate(blanks_for(a["kind"])):
+            sb = dict(base)
+            sb[a["name"]] = blank
+            if not a.get("default"):
+                for gone in (["missing"], ["deleted", blank]) if full or bi == 0 else (["missing"],):
+                    sm = dict(base)
+                    sm[a["name"]] = gone
+                    out.append(({"cls": cname, "attrs": sm}, {"cls": cname, "attrs": sb}, a["name"]))
+            if blank_alts and blank != base[a["name"]]:
+                out.append(({"cls": cname, "attrs": dict(base)}, {"cls": cname, "attrs": sb}, a["name"]))
+            if blank_alts and bi:             # two different blanks (None vs 0, 0 vs False [equal], '' vs [], [] vs {}, ...)
+                sp = dict(base)
+                sp[a["name"]] = blanks_for(a["kind"])[bi - 1]
+                out.append(({"cls": cname, "attrs": sp}, {"cls": cname, "attrs": sb}, a["name"]))
     return out
 
 
@@ -1041,7 +1097,7 @@ def generate(rng, tier):
         for a, b, c in rng.sample(triples, 30 if quick else 180):
             cases.append({"kind": "tri", "fam": fid, "a": a, "b": b, "c": c, "gen": "pool-triple"})
         if fam.get("sub_redefault"):
-            for a, b, which in one_diff_pairs(fam, "Sub"):
+            for a, b, which in one_diff_pairs(fam, "Sub", blank_alts=False, full=not quick):
                 cases.append({"kind": "eq", "fam": fid, "a": a, "b": b, "gen": "redefault-one-diff", "diff": which})
         # triples with equal members (a state, a fresh copy, a variant in a compare=False attribute)
         for st in rng.sample(pool, 4 if quick else 8):
@@ -1052,6 +1108,24 @@ def generate(rng, tier):
                     var["attrs"][a["name"]] = rng.choice(values_for(a["kind"], rng))
             cases.append({"kind": "tri", "fam": fid, "a": st, "b": clone, "c": var, "gen": "equal-triple"})
             cases.append({"kind": "tri", "fam": fid, "a": var, "b": st, "c": rng.choice(pool), "gen": "equal-triple"})
+        # an attribute NOT ASSIGNED on one instance and None / falsy / a sentinel on the other, everything
+        # else equal (own and inherited attributes, Base / Sub / Plain): pairs, triples, copy, rebuild
+        for cname in classes:
+            cand = [a for a in attrs_of(fam, cname) if not a.get("default") and blanks_for(a["kind"])]
+            for a in (rng.sample(cand, min(len(cand), 2)) if quick else cand):
+                st = json.loads(json.dumps(rng.choice([p for p in pool if p["cls"] == cname])))
+                for bi, blank in enumerate(rng.sample(blanks_for(a["kind"]), min(2, len(blanks_for(a["kind"])))) if quick else blanks_for(a["kind"])):
+                    sb, sm = json.loads(json.dumps(st)), json.loads(json.dumps(st))
+                    sb["attrs"][a["name"]] = blank
+                    sm["attrs"][a["name"]] = rng.choice((["missing"], ["deleted", blank]))
+                    cases.append({"kind": "eq", "fam": fid, "a": sm, "b": sb, "gen": "missing-vs-blank", "diff": a["name"]})
+                    if quick and bi:
+                        continue
+                    cases.append({"kind": "tri", "fam": fid, "a": sm, "b": sb, "c": json.loads(json.dumps(sm)), "gen": "missing-vs-blank"})
+                    cases.append({"kind": "tri", "fam": fid, "a": sb, "b": json.loads(json.dumps(sb)), "c": sm, "gen": "missing-vs-blank"})
+                    cases.append({"kind": "dc", "fam": fid, "a": sb, "gen": "missing-vs-blank"})
+                    if rebuildable(fam, sb):
+                        cases.append({"kind": "rb", "fam": fid, "a": sb, "gen": "missing-vs-blank"})
         for st in pool if not quick else rng.sample(pool, 8):
             cases.append({"kind": "dc", "fam": fid, "a": st, "gen": "deepcopy"})
             if rebuildable(fam, st):
@@ -1091,7 +1165,7 @@ def generate(rng, tier):
                     sa = {"cls": cname, "attrs": {"a0": ["int", 1], "a1": u, "a2": ["str", "a"]}}
                     sb = {"cls": cname, "attrs": {"a0": ["int", 1], "a1": v, "a2": ["str", "a"]}}
                     cases.append({"kind": "eq", "fam": fid, "a": sa, "b": sb, "gen": "keyed-container-pair"})
-            for a, b, which in one_diff_pairs(fam, "Sub"):
+            for a, b, which in one_diff_pairs(fam, "Sub", full=not quick):
                 cases.append({"kind": "eq", "fam": fid, "a": a, "b": b, "gen": "keyed-container-pair", "diff": which})
             for v in vals:
                 st = {"cls": "Base", "attrs": {"a0": ["int", 2], "a1": v, "a2": ["str", "b"]}}
@@ -1132,7 +1206,7 @@ def generate(rng, tier):
                         fam["sub_redefault"].append({"name": "a2", "form": "plain"})
                     fid = add_family(fam)
                     for cname in ("Sub", "Base", "Plain"):
-                        for a, b, which in one_diff_pairs(fam, cname):
+                        for a, b, which in one_diff_pairs(fam, cname, blank_alts=False, full=not quick):
                             cases.append({"kind": "eq", "fam": fid, "a": a, "b": b, "gen": "redefault-one-diff", "diff": which})
                     sts = [gen_state(rng, fam, "Sub") for _ in range(3)]
                     for st in sts:
@@ -1156,16 +1230,27 @@ def generate(rng, tier):
         combos = [[k] for k in KINDS] + rng.sample(combos, 34)
     else:
         combos += [[rng.choice(KINDS) for _ in range(rng.choice((4, 5)))] for _ in range(150)]
-    for kinds in combos:
+    for ci, kinds in enumerate(combos):
         for cmp_last in (True, False):
             flags = [(True, True)] * (len(kinds) - 1) + [(cmp_last, True)]
             fam = gen_family(rng, kinds=kinds, flags=flags)
             for a in fam["attrs"]:
                 a["init"] = True
             fam["sub_attrs"] = []
+            # every single kind, and every fourth tuple: a spec subclass with an own attribute that has
+            # no default (Optional / Any / typed) -- pairs of Sub and Plain instances differing in
+            # exactly one INHERITED or OWN attribute (other value; unassigned; unassigned vs None/falsy)
+            with_sub = len(kinds) == 1 or ci % 4 == 0
+            if with_sub:
+                fam["sub_attrs"] = [{"name": "b0", "kind": ("opt", "func", "str", "list")[(ci + cmp_last) % 4], "compare": True,
+                                     "repr": True, "init": True, "default": False}]
             fid = add_family(fam)
-            for a, b, which in one_diff_pairs(fam):
+            for a, b, which in one_diff_pairs(fam, full=not quick):
                 cases.append({"kind": "eq", "fam": fid, "a": a, "b": b, "gen": "one-diff", "diff": which})
+            if with_sub:
+                for cname in ("Sub", "Plain"):
+                    for a, b, which in one_diff_pairs(fam, cname, blank_alts=not quick, full=not quick):
+                        cases.append({"kind": "eq", "fam": fid, "a": a, "b": b, "gen": "one-diff-sub", "diff": which})
     return fams, cases
 
 
